@@ -256,6 +256,8 @@ class ScipyDist(Opaque):
                 out.append(fx)
             else:
                 out.append(Sym(z3.Real(f"fit_{self.name}_{nm}!{o}")))
+        if fixed[-1] is None:
+            cx.fact(out[-1].t > 0, "scipy:fit returns scale > 0")
         cx.trusted.add(f"scipy.stats.{self.name}.fit returns (shapes..., loc, scale); fixed slots are returned unchanged")
         cx.ghost.setdefault("fit_calls", []).append({"dist": self.name, "data": data, "start": start, "kwargs": dict(kwargs), "fixed": fixed, "result": out})
         return tuple(out)
